@@ -59,9 +59,43 @@ def gen_samples(rng, leaves=LEAVES):
     return samples
 
 
+def gen_chain(rng, depth, kind, under_opt=False):
+    if depth <= 0:
+        return ["ser", kind]
+    tag = rng.choice(["list", "dict"] if under_opt else ["opt", "list", "dict"])     # Optional is never nested in Optional
+    return [tag, gen_chain(rng, depth - 1, kind, tag == "opt")]
+
+
+def gen_chain_value(rng, ty, leaf, in_domain=True):
+    tag = ty[0]
+    if tag == "ser":
+        return rng.choice(leaf) if in_domain or rng.random() < .7 else rng.choice(["zzz", None, "", "x y"])
+    if tag == "opt":
+        return None if rng.random() < .3 else gen_chain_value(rng, ty[1], leaf, in_domain)
+    if tag == "list":
+        return [gen_chain_value(rng, ty[1], leaf, in_domain) for _ in range(rng.choice([0, 1, 2]))]
+    return {k: gen_chain_value(rng, ty[1], leaf, in_domain) for k in rng.sample(["p", "q"], k=rng.choice([0, 1, 2]))}
+
+
+def path_of(ty):
+    return {"ser": ["S"]}.get(ty[0]) or [{"opt": "O", "list": "L", "dict": "D"}[ty[0]]] + path_of(ty[1])
+
+
 def correspondence(ctx, batch):
     rng = ctx.rng("corr")
     registry = stages.make_registry()
+    kinds = [("IntString", LEAVES[0]), ("FloatString", LEAVES[1]), ("BooleanString", LEAVES[2])]
+    for _ in range(ctx.n(300, 5000)):
+        kind, leaf = rng.choice(kinds)
+        ty = gen_chain(rng, rng.randint(0, 3), kind)
+        stages.stage_convert(batch, ty, path_of(ty), gen_chain_value(rng, ty, leaf, rng.random() < .8), registry)
+    from .. import gen as _gen
+    for _ in range(ctx.n(150, 2500)):
+        fields = [[k, _gen.gen_ir(rng, 3) if rng.random() < .5 else gen_chain(rng, rng.randint(0, 3), "IntString")]
+                  for k in rng.sample(["a", "b", "c", "d"], k=rng.randint(1, 4))]
+        # registered models never hold raw dicts (process_meta_data replaces them by pointers): outside the domain
+        fields = [f for f in fields if '"obj"' not in __import__("json").dumps(f)]
+        stages.stage_paths(batch, fields)
     for _ in range(ctx.n(200, 3000)):
         samples = gen_samples(rng)
         job = common.gen_job(rng, fw=rng.choice(["attrs", "dataclasses", "base"]), layout="flat")
